@@ -218,7 +218,8 @@ func c16Rels(x *mc.Exec) {
 	for oi, order := range orders {
 		s := c16Build(types, order, rels)
 		if oi == 0 {
-			if errs := s.Check(); len(errs) != 0 {
+			// coherence is verified on a twin: the schema under test is not queried before Rels()
+			if errs := c16Build(types, order, rels).Check(); len(errs) != 0 {
 				x.Fail("C16:rels:harness-schema-incoherent", "harness built an incoherent schema (%s): %v", desc, errs)
 				return
 			}
